@@ -78,6 +78,14 @@ func genC09(g *rand.Rand, tier string) any {
 	p.Pos = g.IntN(4*n + 3)
 	p.WriteFails = g.IntN(2) == 0 && !p.WriteBlocks
 	p.ErrKind = g.IntN(NumInjectedErrs)
+	for _, c := range p.Calls {
+		// some handlers finish with a status of their own: a status that reached the
+		// client before the connection failed is the call's outcome (C03)
+		if c.Kind != KUnary && g.IntN(4) == 0 {
+			c.HStatus = drawStatus(g)
+			c.HStatus.ErrKind = g.IntN(2)
+		}
+	}
 	return p
 }
 
@@ -202,6 +210,29 @@ func execC09(e *Env, pp any) {
 				e.Violate(prop, "no-error", site, "stream %d started after the failure never saw an error", id)
 			}
 			continue
+		}
+		if histMu.Lock(); c.Kind != KUnary && complete[id] && c.Timeout == 0 && r.HReturned && r.CFinalSet && len(r.CSendErr) == 0 && r.CloseErr == nil && readsAll(c.CProg) {
+			histMu.Unlock()
+			// The whole response of this stream, final status included, had been read by
+			// the connection's read loop before the transport failed: what was delivered
+			// before the failure counts (C02: a stream that completed successfully is never
+			// reported failed; C03: the caller sees the handler's status), however the
+			// caller's RecvMsg and the failure are interleaved afterwards.
+			csite := site + ".completed-before-link-failure"
+			if r.HRetErr == nil {
+				if r.CFinal != io.EOF {
+					e.Violate("C02", "success-reported-failed", csite, "call %d: the handler returned nil and the final status had reached the client before the connection failed (event %d); the caller's RecvMsg ended with %v after %d of %d messages", id, failEv, r.CFinal, len(r.CGot), r.HSent)
+				} else if len(r.CGot) != r.HSent {
+					e.Violate("C02", "client-recv-count", csite, "call %d: io.EOF after %d of the %d messages that had all reached the client before the connection failed", id, len(r.CGot), r.HSent)
+				}
+			} else if hs, isSt := status.FromError(r.HRetErr); isSt {
+				if gs, _ := status.FromError(r.CFinal); r.CFinal == io.EOF || gs.Code() != hs.Code() || gs.Message() != hs.Message() {
+					e.Violate("C03", "code-mismatch", csite, "call %d: the handler's status (%v, %q) had reached the client before the connection failed; the caller's RecvMsg ended with %v", id, hs.Code(), trunc(hs.Message()), r.CFinal)
+				}
+			}
+			e.Note("c09.completed-before-failure")
+		} else {
+			histMu.Unlock()
 		}
 		if c.Kind == KCStream && len(r.CGot) >= 1 {
 			// what the generated CloseAndRecv reports is the first RecvMsg's result: handing
@@ -1090,7 +1121,16 @@ func execC14(e *Env, pp any) {
 			}
 		case 6: // the caller's context is already cancelled / past its deadline when the call is made
 			c.PreDone = 1 + g.IntN(2)
-			c.HProg = append(c.HProg, Op{K: 'y'})
+			if c.PreDone == 2 && g.IntN(2) == 0 {
+				// a transport that does not look at the context still carries the request:
+				// the deadline it conveys (already past) is all that ends a handler which
+				// waits for its context - a unary call has no reset
+				needsTime = true
+				c.HProg = append(c.HProg, Op{K: 'w'})
+				e.Note("outcome.ctx-expired-before-call.handler-waits")
+			} else {
+				c.HProg = append(c.HProg, Op{K: 'y'})
+			}
 			if c.Kind != KUnary && !readsAll(c.CProg) {
 				c.CProg = append(c.CProg, Op{K: 'R'})
 			}
@@ -1333,7 +1373,7 @@ func execC14(e *Env, pp any) {
 }
 
 func init() {
-	Register(&Family{Name: "c09.clientfail", ShrinkKeys: []string{"calls", "late", "pos"}, Props: []string{"C09"}, New: func() any { return &C09Params{} }, Gen: genC09, Exec: execC09,
+	Register(&Family{Name: "c09.clientfail", ShrinkKeys: []string{"calls", "late", "pos"}, Props: []string{"C09", "C02", "C03"}, New: func() any { return &C09Params{} }, Gen: genC09, Exec: execC09,
 		Faulty: true, FaultKinds: []string{"link.readFail", "link.writeFail"}})
 	Register(&Family{Name: "c20.clientfail", ShrinkKeys: []string{"calls", "late", "pos"}, Props: []string{"C20"}, New: func() any { return &C09Params{} }, Exec: execC09,
 		Gen: func(g *rand.Rand, tier string) any {
